@@ -345,4 +345,55 @@ theorem can_finish {n : Nat} {roots : List Tree} (hn : 0 < n) :
       obtain ⟨k, s', hr', hA'⟩ := ih s2 (by omega) (r2.reachable hr)
       exact ⟨_, s', r2.trans hr', hA'⟩
 
+/-! ### Closed form of the initial measure -/
+
+mutual
+theorem cost_eq (n : Nat) : (t : Tree) → t.cost n + 1 = t.entries.length * (n + 12)
+  | .node l ks => by
+    have := costL_eq n ks
+    simp only [Tree.cost, Tree.entries, List.length_cons, Nat.succ_mul]
+    omega
+theorem costL_eq (n : Nat) : (ts : List Tree) → costL n ts = (entriesL ts).length * (n + 12)
+  | [] => by simp [costL, entriesL]
+  | t :: ts => by
+    have h1 := cost_eq n t
+    have h2 := costL_eq n ts
+    simp only [costL, entriesL, List.length_append, Nat.add_mul]
+    omega
+end
+
+theorem sumTo_const (n c : Nat) : sumTo n (fun _ => c) = n * c := by
+  induction n with
+  | zero => simp [sumTo]
+  | succ k ih => simp only [sumTo, ih, Nat.succ_mul]
+
+theorem distribute_cost (n : Nat) (hn : 0 < n) (rs : List Tree) (i : Nat) (acc : Nat → List Msg) :
+    sumTo n (dqCost n ∘ distribute n rs i acc) + rs.length = sumTo n (dqCost n ∘ acc) + costL n rs := by
+  induction rs generalizing i acc with
+  | nil => simp [distribute, costL]
+  | cons r rs ih =>
+    simp only [distribute, List.length_cons, costL]
+    have := ih (i + 1) (upd acc (i % n) (.work r :: acc (i % n)))
+    rw [comp_upd] at this
+    obtain ⟨q, h1, h2⟩ := sumTo_split (dqCost n ∘ acc) (Nat.mod_lt i hn)
+    rw [h2] at this
+    rw [h1]
+    simp only [Function.comp, dqCost_cons, Msg.cost] at this ⊢
+    omega
+
+/-- The initial measure: at most `n·(n+9) + |entries|·(n+12)`. -/
+theorem mu_init_le (n : Nat) (hn : 0 < n) (roots : List Tree) :
+    mu n (init n roots) ≤ n * (n + 9) + (entriesL roots).length * (n + 12) := by
+  unfold mu init
+  simp only
+  have h1 : sumTo n (Pc.cost n ∘ fun _ => Pc.recv false) = n * (n + 9) := by
+    rw [← sumTo_const n (n + 9)]
+    exact sumTo_congr (fun i _ => rfl)
+  have h2 := distribute_cost n hn roots 0 (fun _ => [])
+  have h3 : sumTo n (dqCost n ∘ fun _ => ([] : List Msg)) = 0 :=
+    sumTo_zero (by intro i _; simp [Function.comp])
+  have h4 := costL_eq n roots
+  rw [h1]
+  omega
+
 end RgVerif.ParWalk
